@@ -8,7 +8,7 @@ from . import sidecar
 from .extract import (Cfg, Log, ExtractError, add_markers, strip_markers, rule_cfg, rule_use, rule_test,
                       rule_debug_assert, rule_panic, rule_regex, rule_constassert, apply_contracts,
                       finalize, find_blocks, find_fns, PanicTable, MARK)
-from .unwind import make_unwind, maypanic_names
+from .unwind import make_unwind, maypanic_set
 
 HERE = os.path.dirname(os.path.dirname(os.path.abspath(__file__)))
 CONTRACTS = os.path.join(HERE, 'contracts')
@@ -52,6 +52,10 @@ def common_rules(text, cfg, rel, table, log):
     text = rule_debug_assert(text, cfg, rel, table, log)
     text = rule_panic(text, rel, table, log)
     text = rule_constassert(text, log)
+    # R-numassert: compile-time constant checks (NumAssert<L, R>) are evaluated by rustc's const evaluation, not at run time
+    def _drop_numassert(m, t):
+        return '\n' * t[m.start():m.end()].count('\n')
+    text = rule_regex(text, log, 'R-numassert', r'\bnum_assert_(?:leq|lt)!\s*\([^;]*\)\s*;', _drop_numassert)
     # R-vis: Verus requires `pub` for items whose bodies are visible to specs; single-file, so no semantic effect
     text = rule_regex(text, log, 'R-vis', r'\bpub\((?:crate|super)\)', 'pub')
     # R-phantom
@@ -74,13 +78,35 @@ def transform_storage(cfg, n, table, log, sc_text_extra=None, core_texts=()):
     raw = add_markers(read_repo(rel), 'storage')
     inst, binding = seqexp.instantiate(raw, 'declare_storage_n', n)
     log.rule('R-seq', 'declare_storage_n for N=%d: %s' % (n, binding))
+    # companion traits instantiated from their own macros (same R-seq)
+    companions = []
+    for crel, fid, mac in (('src/archetype/components.rs', 'components', 'declare_components_n'),
+                           ('src/archetype/slices.rs', 'slices', 'declare_slices_n'),
+                           ('src/archetype/view.rs', 'view', 'declare_view_n')):
+        craw = add_markers(read_repo(crel), fid)
+        cinst, cb = seqexp.instantiate(craw, mac, n)
+        companions.append('// ---- %s (N=%d)\n' % (crel, n) + cinst)
+        log.rule('R-seq', '%s for N=%d' % (mac, n))
     # the part of the file after the macro invocations: DataPtr and helpers
     msk = rs.mask(raw)
     m = re.search(r'(?m)^pub struct DataPtr', msk)
     if not m:
         raise ExtractError('DataPtr not found in storage.rs')
     tail = raw[m.start():]
-    text = inst + '\n' + tail
+    comp_text = '\n'.join(companions)
+    # R-sized: Verus needs `Self: Sized` on traits whose methods return Self (all implementors are structs)
+    comp_text = rule_regex(comp_text, log, 'R-sized', r'(pub\s+trait\s+\w+\s*<[^{]*>)(\s*)\{', r'\1: Sized\2{')
+    text = comp_text + '\n' + inst + '\n' + tail
+    # R-drop / R-clone: `impl Drop for StorageN { fn drop(&mut self) {B} }` -> inherent `fn drop_body(&mut self) {B}`,
+    # `impl Clone for StorageN { fn clone(&self) -> Self {B} }` -> inherent `fn clone_body(&self) -> Self {B}` (bodies verbatim).
+    # Verus forbids `requires` on impls of external traits; for Drop the where clause of the main impl block is added
+    # so that the contract can mention wf().
+    tparams = ', '.join('T%d' % i for i in range(n))
+    text = rule_traitfn(text, 'Drop', binding['name'], 'drop', 'drop_body', log,
+                        add_where='where A::Components: %s<%s>,' % (binding['components'], tparams))
+    text = rule_traitfn(text, 'Clone', binding['name'], 'clone', 'clone_body', log)
+    text = rule_optmap(text, 'begin_borrow', log)
+    text = rule_optmap(text, 'get_view_mut', log)
     text = common_rules(text, cfg, rel, table, log)
     # sidecar in macro notation
     sc_raw = open(os.path.join(CONTRACTS, 'storage.vsp')).read()
@@ -90,10 +116,59 @@ def transform_storage(cfg, n, table, log, sc_text_extra=None, core_texts=()):
     sc_inst = seqexp.instantiate_sidecar(sc_raw, binding, 'I', n)
     sc = sidecar.parse('storage.vsp', sc_inst)
     fspec = sc.files.get(rel)
-    may = maypanic_names(list(core_texts) + [text])
-    log.rule('R-unwind', 'may-panic function names: %s' % ', '.join(sorted(may)))
+    may = maypanic_set(list(core_texts) + [text])
+    log.rule('R-unwind', 'may-panic functions: %s' % ', '.join(sorted('%s::%s' % (t or '', nm) for (t, nm) in may[0])))
     text, _ = apply_contracts(text, fspec, log, rel, make_unwind(cfg, may))
     return text, binding
+
+
+def rule_traitfn(text, trait, type_name, old_fn, new_fn, log, add_where=None):
+    msk = rs.mask(text)
+    blocks = [b for b in find_blocks(text, msk) if b.kind == 'impl' and re.match(r'^%sfor%s(<|$)' % (trait, re.escape(type_name)), b.key)]
+    if len(blocks) != 1:
+        raise ExtractError('R-%s: expected exactly one `impl %s for %s`, found %d' % (trait.lower(), trait, type_name, len(blocks)))
+    b = blocks[0]
+    hdr = text[b.header_start:b.open]
+    m = re.search(r'\b%s\s+for\s+' % trait, rs.mask(hdr))
+    if not m:
+        raise ExtractError('R-%s: header shape' % trait.lower())
+    edits = [(b.header_start + m.start(), m.end() - m.start(), '')]
+    if add_where:
+        if re.search(r'\bwhere\b', rs.mask(hdr)):
+            raise ExtractError('R-%s: impl already has a where clause' % trait.lower())
+        edits.append((b.open, 0, add_where + '\n'))
+    fm = re.search(r'\bfn\s+%s\b' % old_fn, msk[b.open:b.close])
+    if not fm:
+        raise ExtractError('R-%s: fn %s not found' % (trait.lower(), old_fn))
+    edits.append((b.open + fm.start(), fm.end() - fm.start(), 'fn %s' % new_fn))
+    log.rule('R-' + trait.lower(), '%s::%s -> inherent %s' % (trait, old_fn, new_fn))
+    from .extract import apply_edits
+    return apply_edits(text, edits)
+
+
+def rule_optmap(text, fn_name, log):
+    """R-optmap: in `fn_name` only, `RECV.map(|x| BODY)` as the tail expression -> `match RECV { Some(x) => Some(BODY), None => None }`.
+    Verus rejects closures that capture a `&mut` borrow; for Option::map the two forms are equivalent."""
+    msk = rs.mask(text)
+    blocks = find_blocks(text, msk)
+    hits = [f for f in find_fns(text, msk, blocks) if f.name == fn_name and f.has_body]
+    if len(hits) != 1:
+        raise ExtractError('R-optmap: expected exactly one fn %s, found %d' % (fn_name, len(hits)))
+    f = hits[0]
+    m = re.search(r'\.map\s*\(\s*\|\s*(\w+)\s*\|', msk[f.body_open:f.body_close])
+    if not m:
+        raise ExtractError('R-optmap: no `.map(|x| ..)` in %s' % fn_name)
+    map_pos = f.body_open + m.start()
+    paren = text.index('(', map_pos)
+    pclose = rs.match_close(msk, paren)
+    body_start = f.body_open + m.end()
+    closure_body = text[body_start:pclose]
+    # receiver: from the start of the statement to `.map`
+    ls = rs.line_start(text, map_pos)
+    recv = text[ls:map_pos]
+    new = 'match %s {\nSome(%s) => Some(%s),\nNone => {\nNone\n}\n}' % (recv.strip(), m.group(1), closure_body.strip())
+    log.rule('R-optmap', fn_name)
+    return text[:ls] + new + text[pclose + 1:]
 
 
 def apply_sidecar_cfg(text, cfg):
